@@ -6,7 +6,7 @@
     commutative ring (MathComp [comRingType]), [ROps R ...] = the model's operations instantiated with
     the ring operations, the uninterpreted ones (division, sqrt, fabs, <) arbitrary. *)
 From mathcomp Require Import all_ssreflect all_algebra.
-From LP Require Import Num C04_Model C04_State C04_Life C04_Proofs_Struct C04_Proofs_Laws C04_Proofs_Block C04_Proofs_State C04_Proofs_Life C04_Proofs_Hist C04_Proofs_Alg C04_Amb C04_Proofs_Amb.
+From LP Require Import Num C04_Model C04_State C04_Life C04_Proofs_Struct C04_Proofs_Laws C04_Proofs_Block C04_Proofs_State C04_Proofs_Life C04_Proofs_Hist C04_Proofs_Alg C04_Amb C04_Proofs_Amb C04_Proofs_Made.
 Import GRing.Theory.
 Local Open Scope ring_scope.
 
@@ -417,6 +417,28 @@ Theorem C04_normalized (v : vec T) :
       exists w, v_normalized Ops v = Ok w].
 Proof. exact (normalized_spec Ops v). Qed.
 Print Assumptions C04_normalized.
+(** "Sub_Matrix, Return_Row/Column ... agree with their definitions" for matrices RETURNED by the library.  [made Ops C]: C is
+    handed out by a composition, of any depth, of the constructor from a table and the members / free functions listed in
+    [C04_invariant_preserved] (sums, products, scalar forms, Transpose, Sub_Matrix, Delete_Row/Column, Outer_Vector_Product,
+    Identity_Matrix, the fill / diagonal constructors) applied to returned objects.  Return_Row and Sub_Matrix read the
+    storage wholesale (Vector(components[row]), Matrix(components)): on every returned object the row handed out has exactly
+    Columns() entries (the stored row itself), and the minor is again a returned object with one row and one column less -
+    induction over the derivation.  (Inverse, Rotation_Matrix, the QR factors and Round are outside the model: for them this
+    is tested only, by the `made` cases of checks/C04.py.) *)
+Theorem C04_returned_objects (C : mat T) : made Ops C ->
+  wf_mat C /\ (forall i w, return_row C i = Ok w -> vdim w = mcols C /\ wf_vec w /\ vcomps w = nth [::] (mcomps C) i)
+           /\ (forall k l S, (0 < mrows C)%N -> sub_matrix C k l = Ok S ->
+                 [/\ made Ops S, mrows S = (mrows C).-1 & mcols S = (mcols C).-1]).
+Proof.
+  exact (fun H => conj (made_wf H) (conj (fun i w => @made_return_row T Ops C i w H)
+                                         (fun k l S => @made_sub_matrix T Ops C k l S H))).
+Qed.
+Print Assumptions C04_returned_objects.
+(** the invariant alone suffices for Return_Row, whatever produced the object *)
+Theorem C04_return_row_size (C : mat T) (i : nat) (w : vec T) : wf_mat C -> return_row C i = Ok w ->
+  vdim w = mcols C /\ wf_vec w /\ vcomps w = nth [::] (mcomps C) i.
+Proof. exact (@return_row_size T C i w). Qed.
+Print Assumptions C04_return_row_size.
 End AnyNumberType.
 
 (** Non-vacuity of the laws assumed above: the natural numbers satisfy them; a 2x3 * 3x2 instance,
@@ -432,6 +454,13 @@ Theorem C04_examples :
    m_plus NOps exA (mk_mat 2 2 (fun _ _ => 1%N)) = Exit).
 Proof. exact (conj transpose_product_instance (conj mul_identity_instance sum_shape_instance)). Qed.
 Print Assumptions C04_examples.
+
+(** non-vacuity of [made]: transpose(minor(exA*exB)) is a returned object of depth 3, its row 0 has one entry *)
+Theorem C04_examples_returned_objects :
+  exists P S C w, [/\ m_product NOps exA exB = Ok P, sub_matrix P 0 1 = Ok S, transpose NOps S = Ok C &
+                      made NOps C /\ return_row C 0 = Ok w /\ vdim w = 1%N].
+Proof. exact made_instance. Qed.
+Print Assumptions C04_examples_returned_objects.
 
 Section CommutativeRing.
 Variable R : comRingType.
